@@ -3,6 +3,7 @@ pub mod layout;
 pub mod out;
 pub mod run;
 pub mod gen;
+pub mod flt;
 
 pub use big::Big;
 pub use layout::{IntK, INTS, L, NLAY};
@@ -11,5 +12,5 @@ pub use run::{Budget, Engine, Kf, Tier};
 
 /// Oracle self-tests, run at the start of every check.
 pub fn selftest() -> Result<u64, String> {
-    Ok(big::selftest()? + layout::selftest()?)
+    Ok(big::selftest()? + layout::selftest()? + flt::selftest()?)
 }
